@@ -23,7 +23,7 @@ checks = {
    "allowed cone follows both old and new right-hand sides of binds (sound over-approximation, DESIGN 3.4)"),
  "C06": (EXPL, "4 C06", "stateful PBT with a required/allowed/forbidden monitor over all cutoff kinds (interval timestamps where the model cannot know)",
    "For every node and round the model derives whether its function must, may or must not run from the cutoff-judged change status of its inputs, and checks the log; cutoff closures log their (old,new) arguments.",
-   "trusted: reference model; uncertain statuses are resolved from the log instead of guessed"),
+   "trusted: reference model; uncertain statuses are resolved from the log instead of guessed; thorough tier at the quick sizes (more cases) until the two unclassified thorough-size cases in replays_unclassified/ are decided (DESIGN section 5)"),
  "C07": (EXPL, "4 C07", "stateful PBT reading every observer handle after every action, from node functions and from handlers",
    "All handles are read after each action and compared with the value recorded at the end of the previous stabilise; reads inside node functions must fail with CurrentlyStabilising; reads inside handlers must show end-of-round values; observers created inside handlers must read NeverStabilised; at the end of every stabilise all observers must equal the from-scratch evaluation on the variable contents at the call (also with writes issued from node functions in that round).",
    "trusted: reference model"),
@@ -65,7 +65,7 @@ checks = {
    "weak_memoize_fn is called at top level or inside a bind closure; calls are also made through within_scope with a (valid) scope handed out by a bind closure; uncertain reference states make no claim"),
  "C09": (EXPL, "4 C09", "stateful PBT with a per-subscription notification model (Initialised once, Changed iff changed, one Invalidated, nothing after the end)",
    "Every delivered update is logged with the value the observer returns at that moment and the values of all other observers; per-subscription sequences are compared with the model for each round.",
-   "handler order across subscriptions unspecified: oracles are per subscription"),
+   "handler order across subscriptions unspecified: oracles are per subscription; thorough tier at the quick sizes (more cases), for the same reason as C06"),
 }
 
 m = {
